@@ -15,6 +15,7 @@ type seededMeta struct {
 	Property string   `json:"property"`
 	Also     []string `json:"also_breaks,omitempty"` // other claimed properties this change genuinely breaks
 	Needs    string   `json:"needs"`
+	Expect   string   `json:"expect,omitempty"` // "holds": a negative control - the property still holds, nothing may fire
 	Source   string   `json:"source"`
 }
 
@@ -111,7 +112,7 @@ func selftestSensitivity(args []string) int {
 			code := cmd.ProcessState.ExitCode()
 			r.results[p] = code
 			expect := 0
-			if p == meta.Property {
+			if p == meta.Property && meta.Expect != "holds" {
 				expect = 1
 			}
 			for _, a := range meta.Also {
